@@ -267,3 +267,25 @@ def satisfiable(conds, constraint=None):
         if (constraint is None or constraint(sigma)) and holds(pf, sigma):
             return True
     return False
+
+
+def equivalent(path_vals, spec, constraint=None):
+    """is the boolean function read off the paths the formula `spec`?  -> (ok, mismatches, atoms); a mismatch is
+    (sigma, results, expected).  Atoms of spec missing from the code simply make rows differ."""
+    atoms, rows0 = truth_function(path_vals, constraint)
+    extra = sorted(atoms_of(spec) - set(atoms), key=repr)
+    if len(atoms) + len(extra) > MAX_ATOMS:
+        raise ValueError('%d elementary tests' % (len(atoms) + len(extra)))
+    bad = []
+    n = 0
+    for sigma, results in rows0:
+        for vals in itertools.product((False, True), repeat=len(extra)):
+            s2 = dict(sigma)
+            s2.update(zip(extra, vals))
+            if constraint is not None and not constraint(s2):
+                continue
+            n += 1
+            want = holds(spec, s2)
+            if results != {want}:
+                bad.append((s2, results, want))
+    return not bad and n > 0, bad, atoms
